@@ -1192,6 +1192,45 @@ def coq_case(k, case, res, ev, geoms, with_model):
     return '\n'.join(L) + '\n', ids
 
 
+def solve_case_coq(k, ax, g, max_gnodes=18):
+    """Coq text evaluating the model of the graph SOLVE STAGE (LT.LayoutSolve.solve) on the graph the real
+    code had after add_start_nodes, compared with the positions the real Graph.solve returned.
+    Returns (text, result name) or a string naming why the case is skipped."""
+    si = g.get('solve_in')
+    if not si or 'solved' not in g:
+        return 'no_solve'
+    if len(si) > max_gnodes:
+        return 'large'
+    ids = {'|'.join(lab): i for i, (lab, _, _) in enumerate(si)}
+    for lab, fe, re_ in si:
+        for to, size, st, raw in fe + re_:
+            # the model computes in Q; it must agree with the float run only when every size is exact in binary
+            if Fraction(float(raw)) != Fraction(size):
+                return 'inexact'
+    if 'start' not in ids or 'end' not in ids:
+        return 'no_solve'
+
+    def edges(l):
+        return '[' + '; '.join('mkS %d%%nat %s %s' % (ids['|'.join(to)], qlit(Fraction(size)), 'true' if st else 'false') for to, size, st, _ in l) + ']'
+    F = '[' + '; '.join('(%d%%nat, %s)' % (ids['|'.join(lab)], edges(fe)) for lab, fe, _ in si) + ']'
+    R = '[' + '; '.join('(%d%%nat, %s)' % (ids['|'.join(lab)], edges(re_)) for lab, _, re_ in si) + ']'
+    # `unknown = list(self.keys())` is taken before start/end are added, then 'start' and 'end' are appended
+    gn = [ids['|'.join(lab)] for lab, _, _ in si]
+    real = []
+    for lab, _, _ in si:
+        if lab in (['start'], ['end']):
+            continue
+        if lab[0] not in g['solved']:
+            return 'no_solve'
+        real.append('(%d%%nat, %s)' % (ids['|'.join(lab)], qlit(Fraction(g['solved'][lab[0]]))))
+    nm = 'sv_%s_%d' % (ax, k)
+    txt = ('Definition svF_%s_%d : adj := %s.\nDefinition svR_%s_%d : adj := %s.\n'
+           'Definition %s := tag %d %d (solve_bad svF_%s_%d svR_%s_%d [%s] %d%%nat %d%%nat [%s]).\n') % (
+        ax, k, F, ax, k, R, nm, k, 13 if ax == 'x' else 14, ax, k, ax, k, '; '.join('%d%%nat' % i for i in gn),
+        ids['start'], ids['end'], '; '.join(real))
+    return txt, nm
+
+
 def parse_triples(out):
     m = re.search(r'=\s*\[(.*?)\]\s*:\s*list \(nat \* nat \* nat\)', out, re.S)
     if not m:
